@@ -109,6 +109,10 @@ func (c *ChartDownloader) DownloadTo(ref, version, dest string) (string, *proven
 		name = fmt.Sprintf("%s-%s.tgz", name[:idx], name[idx+1:])
 	}
 
+	if name == "." || name == ".." || name == string(filepath.Separator) {
+		return "", nil, errors.Errorf("cannot derive a file name from URL %q", u.String())
+	}
+
 	destfile := filepath.Join(dest, name)
 	if err := fileutil.AtomicWriteFile(destfile, data, 0644); err != nil {
 		return destfile, nil, err
